@@ -170,6 +170,15 @@ func (s *state) project(ctx sdk.Context) obs {
 				}
 				ao.Start, ao.End = 0, v.EndTime-env.T0.Unix()
 				ao.DV, ao.DF = v.DelegatedVesting.AmountOf(s.vdenom).String(), v.DelegatedFree.AmountOf(s.vdenom).String()
+			case *vestingtypes.PermanentLockedAccount:
+				ao.Kind = "permlocked"
+				for _, c := range v.OriginalVesting {
+					if !c.IsZero() {
+						ao.OV[c.Denom] = c.Amount.String()
+					}
+				}
+				ao.Start, ao.End = 0, 0
+				ao.DV, ao.DF = v.DelegatedVesting.AmountOf(s.vdenom).String(), v.DelegatedFree.AmountOf(s.vdenom).String()
 			case *authtypes.BaseAccount:
 				ao.Kind = "base"
 			case *authtypes.ModuleAccount:
@@ -311,7 +320,7 @@ func (s *state) diff(exp graph.M, o obs) map[string]string {
 			d["acct"] = fmt.Sprintf("%s: model kind %s real %s", n, graph.Str(e["kind"]), r.Kind)
 			continue
 		}
-		if r.Kind == "cv" || r.Kind == "delayed" {
+		if r.Kind == "cv" || r.Kind == "delayed" || r.Kind == "permlocked" {
 			eov := map[string]string{}
 			for dn, a := range graph.Rec(e["ov"]) {
 				if v := graph.Num(a); v != 0 {
@@ -409,6 +418,9 @@ func (s *state) configure(ctx sdk.Context, setup graph.M) error {
 		case "delayed":
 			base := app.AccountKeeper.NewAccountWithAddress(ctx, s.addr[n]).(*authtypes.BaseAccount)
 			app.AccountKeeper.SetAccount(ctx, vestingtypes.NewDelayedVestingAccountRaw(vestingtypes.NewBaseVestingAccount(base, coinsOf(graph.Rec(a["ov"])), env.T0.Unix()+graph.Num(a["end"]))))
+		case "permlocked":
+			base := app.AccountKeeper.NewAccountWithAddress(ctx, s.addr[n]).(*authtypes.BaseAccount)
+			app.AccountKeeper.SetAccount(ctx, vestingtypes.NewPermanentLockedAccount(base, coinsOf(graph.Rec(a["ov"]))))
 		case "module":
 			app.AccountKeeper.GetModuleAccount(ctx, dtypes.GreenEnergyBoosterCollector)
 		case "base":
